@@ -35,6 +35,10 @@ func PathFor(in interface{}) (string, error) {
 		return "", errors.New("can not calculate path to nil")
 	}
 
+	if rv := reflect.ValueOf(in); rv.Kind() == reflect.Ptr && rv.IsNil() {
+		return "", fmt.Errorf("can not calculate path to nil %T", in)
+	}
+
 	switch s := in.(type) {
 	case string:
 		return join(s), nil
@@ -42,10 +46,6 @@ func PathFor(in interface{}) (string, error) {
 		return join(string(s)), nil
 	case Pathable:
 		return join(s.ToPath()), nil
-	}
-
-	if rv := reflect.ValueOf(in); rv.Kind() == reflect.Ptr && rv.IsNil() {
-		return "", fmt.Errorf("can not calculate path to nil %T", in)
 	}
 
 	ni, err := name.Interface(in)
